@@ -1,8 +1,202 @@
 import CM.Lib.Wire
-/-! Driver handler for C02 (stub: not built yet). -/
-namespace CM.Drv.C02
-open CM.Wire
+import CM.Model.Handshake
+/-! Driver handler for C02.
 
-def handle (_args _impl : List String) : String := bad
+`q <name>`  — the model of SubjectQualifiesForCert on one string.
+`hs od fn mg af ar idna allow <name> hit dflt managed due tlpos revoked aridue M tok* (K tok*)* => res`
+  — one handshake of the implementation: configuration class, name facts, what the handshake
+  sees when it looks at the cache / at its certificate (probed on the real structures), the
+  observed effect sequence of the handshake's goroutine (`M`) and of every goroutine it
+  started (`K`, in canonical order), and the result class. The driver
+   (i) judges the observed effects by the executable specification of C02, and
+   (ii) walks the model program `getCert` along them: effects the doubles can see must match
+        the next observed token and take its response; effects on in-process state take the
+        probed value, or — where the probe cannot know (other goroutines, retries) — both
+        values are tried. The answer is the result class of the model run that reproduces
+        the observation (`nomatch` if there is none).
+-/
+namespace CM.Drv.C02
+open CM.Wire CM.Prog CM.Handshake
+
+structure Tok where
+  kind : String
+  cls : String
+  val : Bool
+  deriving Repr, BEq
+
+def parseTok (s : String) : Tok :=
+  match s.splitOn ":" with
+  | [k] => ⟨k, "", false⟩
+  | [k, v] => ⟨k, "", v == "1"⟩
+  | [k, c, v] => ⟨k, c, v == "1"⟩
+  | _ => ⟨"?", "", false⟩
+
+structure Pins where
+  hit : Bool
+  dflt : Bool
+  managed : Bool
+  due : Bool
+  tlpos : Bool
+  revoked : Bool
+  aridue : Bool
+
+structure St where
+  main : List Tok
+  kids : List (List Tok)
+  ownLoad : Bool := false
+  fresh : Bool := false
+  looked : Bool := false
+  reRes : Nat := Res.enc .err
+
+structure Ctx where
+  c : Cfg
+  f : Facts
+  pins : Pins
+
+def nmMatches (n : Nm) (cls : String) : Bool :=
+  match n with
+  | .hello => cls == "n"
+  | .wild => cls == "w"
+  | .cert0 => cls == "n" || cls == "w"
+
+/-- how an effect relates to the observation -/
+inductive How
+  | obs (kind : String) (nm : Option Nm)   -- seen by a double: must be the next token
+  | pin (v : Bool)                          -- in-process state with a probed value
+  | both                                    -- in-process state the probe cannot know
+  | skip                                    -- no response
+  | re                                      -- a re-entry
+
+def how (x : Ctx) (st : St) : Eff → How
+  | .gate => .obs "gate" none
+  | .mgrErr => .obs "mgrErr" none
+  | .mgrCert => .obs "mgrCert" none
+  | .load n => .obs "load" (some n)
+  | .loadNX n => .obs "loadNX" (some n)
+  | .has n => .obs "has" (some n)
+  | .lock => .obs "lock" none
+  | .issue n => .obs "issue" (some n)
+  | .save => .obs "save" none
+  | .ariMeta => .obs "ariMeta" none
+  | .cacheHit => if st.looked then .both else .pin x.pins.hit
+  | .cacheDefault => .pin x.pins.dflt
+  | .managed => .pin (st.fresh || x.pins.managed)
+  | .needsRenewal => .pin (!st.fresh && x.pins.due)
+  | .timeLeftPos => .pin (st.fresh || x.pins.tlpos)
+  | .revoked => .pin (!st.fresh && x.pins.revoked)
+  | .ariDue => .pin (!st.fresh && x.pins.aridue)
+  | .reenter => .re
+  | .keyCompromise | .storedDue | .loadChan | .obtainChan | .waitLoad | .waitObtain | .retry => .both
+  | _ => .skip
+
+def upd (st : St) : Eff → St
+  | .regLoad => { st with ownLoad := true }
+  | .unregLoad => { st with ownLoad := false }
+  | .fresh => { st with fresh := true }
+  | .cacheHit => { st with looked := true }
+  | _ => st
+
+/-- all model runs of `p` consistent with the observation; `re` replays a re-entry -/
+def explore (x : Ctx) (re : St → List (Nat × St)) : Prog Eff → St → List (Nat × St)
+  | .done r, st => [(r, st)]
+  | .eff e k, st =>
+    match how x st e with
+    | .obs kind nm =>
+      match st.main with
+      | [] => []
+      | t :: rest =>
+        if t.kind == kind && (match nm with | some n => nmMatches n t.cls | none => true) then
+          explore x re (k t.val) { upd st e with main := rest }
+        else []
+    | .pin v => explore x re (k v) (upd st e)
+    | .both => explore x re (k true) (upd st e) ++ explore x re (k false) (upd st e)
+    | .skip => explore x re (k false) (upd st e)
+    | .re =>
+      (re st).flatMap fun (r, st') =>
+        explore x re (k (r != Res.enc .err)) { st' with reRes := r, ownLoad := st.ownLoad }
+  | .spawn c k, st =>
+    -- the goroutine's trace is one of the unclaimed ones, or it performed nothing observable
+    let cands : List (List Tok × List (List Tok)) :=
+      ([], st.kids) :: (List.range st.kids.length).map (fun i => (st.kids.getD i [], st.kids.eraseIdx i))
+    cands.flatMap fun (tr, others) =>
+      ((explore x re c { st with main := tr, kids := others, ownLoad := false }).filter (fun o => o.2.main.isEmpty)).flatMap
+        fun (_, stc) => explore x re k { st with kids := stc.kids }
+  | .sub p k, st =>
+    (explore x re p st).flatMap fun (r, st') => explore x re (k r) st'
+
+def exploreFuel (x : Ctx) : Nat → Prog Eff → St → List (Nat × St)
+  | 0, p, st => explore x (fun _ => []) p st
+  | n + 1, p, st =>
+    explore x (fun s => exploreFuel x n (reify (reentry x.c x.f s.ownLoad)) { s with looked := true }) p st
+
+def resName (r : Nat) : String :=
+  match Res.dec r with
+  | .cur => "cur" | .new => "new" | .mgr => "mgr" | .dflt => "dflt" | .re => "re" | .empty => "empty"
+  | .err => "err" | .none => "none"
+
+/-- result classes of the accepted model runs (a re-entry's result is what the re-entry returned) -/
+def replay (x : Ctx) (main : List Tok) (kids : List (List Tok)) : List String :=
+  let outs := exploreFuel x 3 (reify (getCert x.c x.f)) { main := main, kids := kids }
+  let ok := outs.filter (fun o => o.2.main.isEmpty && o.2.kids.isEmpty)
+  (ok.map fun (r, st) => resName (if r == Res.enc .re then st.reRes else r)).eraseDups
+
+/-! ### the executable specification (judges the implementation's effects, not the model's) -/
+
+def isGuardedTok (t : Tok) : Bool := t.kind == "issue" || t.kind == "load"
+
+/-- first violation in one goroutine's effect sequence, if any -/
+def specThread (od fn allow q : Bool) : List Tok → Bool → Option String
+  | [], _ => none
+  | t :: rest, permitted =>
+    if t.kind == "issue" && !od then some "issuance-with-on-demand-off"
+    else if od && isGuardedTok t && !q then some ("not-qualifying-" ++ t.kind)
+    else if od && isGuardedTok t && !fn && !allow then some ("not-on-allowlist-" ++ t.kind)
+    else if od && isGuardedTok t && fn && !permitted then some ("ungated-" ++ t.kind)
+    else specThread od fn allow q rest (if t.kind == "gate" then (permitted || t.val) else permitted)
+
+def spec (od fn allow q : Bool) (threads : List (List Tok)) : String :=
+  match threads.filterMap (fun t => specThread od fn allow q t false) with
+  | [] => "ok"
+  | v :: _ => "bad:" ++ v
+
+/-- split `M a b K c K d e` into threads -/
+def splitThreads : List String → List (List Tok) → List Tok → List (List Tok)
+  | [], acc, cur => (acc ++ [cur])
+  | "K" :: rest, acc, cur => splitThreads rest (acc ++ [cur]) []
+  | t :: rest, acc, cur => splitThreads rest acc (cur ++ [parseTok t])
+
+def b (s : String) : Bool := s == "1"
+
+def handle (args impl : List String) : String :=
+  match args with
+  | ["q", name] =>
+    match decStr name with
+    | some s => let r := qualifies s; reply (if r then "1" else "0") "-" (if r then "" else "rejects")
+    | none => bad
+  | "hs" :: od :: fn :: mg :: af :: ar :: idna :: allow :: name :: hit :: dflt :: managed :: due :: tlpos :: revoked :: aridue :: "M" :: toks =>
+    match decStr name with
+    | none => bad
+    | some nm =>
+      let q := qualifies nm
+      let x : Ctx := { c := ⟨b od, b fn, b mg, b af, b ar⟩, f := ⟨b idna, q, b allow⟩,
+                       pins := ⟨b hit, b dflt, b managed, b due, b tlpos, b revoked, b aridue⟩ }
+      let threads := splitThreads toks [] []
+      let main := threads.headD []
+      let kids := threads.drop 1
+      let verdict := if b idna then spec (b od) (b fn) (b allow) q threads
+                     else (if threads.all (fun t => t.all (fun k => !isGuardedTok k)) then "ok" else "bad:effects-for-unconvertible-name")
+      let results := replay x main kids
+      let implRes := impl.headD "?"
+      let model :=
+        -- `a+b`: the certificate served belongs to both classes (e.g. the cached certificate is
+        -- also the default one)
+        if (implRes.splitOn "+").any results.contains then implRes
+        else match results with
+          | [] => "nomatch"
+          | r :: _ => r
+      let tag := if threads.all List.isEmpty then "" else
+        implRes ++ "/" ++ toString kids.length ++ "k/" ++ toString (threads.foldl (fun n t => n + t.length) 0)
+      reply model verdict tag
+  | _ => bad
 
 end CM.Drv.C02
